@@ -1,4 +1,5 @@
 import FluentVerif.Gen.Client
+import FluentVerif.Client.Helpers
 /-! # The methods of the TCP client are what the source says now
 
 `Gen/Client.lean` holds the bodies of `Client.Send`, `SendRaw`, `checkAck`, `writeAll`, `Connect`, `Disconnect`, `Reconnect`,
@@ -91,5 +92,24 @@ theorem Client_Handshake_is_model (cfg : Cfg) (i : In) (s : St) :
         cases hw : (doWrite (pingMsg H cfg i.salt ho.nonce).marshal i.fault).2 <;> simp [hw, St.emit, hs] <;>
         (cases hp : Pong.unmarshal .stream {} (rest0 ++ i.pong) <;> simp [hp, pongAccepted, validatePong, hexDigest]) <;>
         (rename_i p _; cases ha : p.authResult <;> simp [ha]) <;> (split <;> simp_all)
+
+/-! ### the `Send*` helpers: each builds its message with one constructor from its own arguments and hands it to `Send` -/
+
+/-- the constructor the helper model (`Client/Helpers.lean`, `Helper.wire`) uses for each helper, and whether it can fail -/
+def Helper.goShape : Helper → String × String × Bool
+  | .message _ _ => ("SendMessage", "NewMessage", false)
+  | .messageExt _ _ => ("SendMessageExt", "NewMessageExt", false)
+  | .forward _ _ => ("SendForward", "NewForwardMessage", false)
+  | .packed _ _ => ("SendPacked", "NewPackedForwardMessage", true)
+  | .compressed _ _ => ("SendCompressed", "NewCompressedPackedForwardMessage", true)
+  | .packedBytes _ _ => ("SendPackedFromBytes", "NewPackedForwardMessageFromBytes", false)
+  | .compressedBytes _ _ => ("SendCompressedFromBytes", "NewCompressedPackedForwardMessageFromBytes", true)
+
+/-- every helper of the model is, in the source as it is now, `msg[, err] := protocol.<that constructor>(<its arguments>)` followed
+by `Send(msg)` (skipped when the constructor failed) — and the source has no other `Send*` helper shape -/
+theorem helpers_match_model (h : Helper) : Helper.goShape h ∈ Gen.Client.clientHelpers := by
+  cases h <;> simp only [Helper.goShape] <;> decide
+
+theorem helpers_all_modelled : Gen.Client.clientHelpers.length = 7 := by decide
 
 end FV.Tie
